@@ -19,7 +19,7 @@ package calendar
 
 //@ # supported range of the properties: civil years 1..9999
 //@ spec func jdnInRange(j int) bool
-//@   = 1721424 <= j && j <= 5373484
+//@   = 1721058 <= j && j <= 5373484
 
 //@ # day position inside a month with October 1582 renumbered 1..21, and back
 //@ spec func ren(y int, m int, d int) int
@@ -49,13 +49,14 @@ package calendar
 //@ # J is the day number (noon-based day containing the instant), F the day fraction; (yOf,mOf,dOf)(J) is the
 //@ # proved-to-exist date with that day number (lemma ymdOf), used as the witness the Meeus inverse must reproduce.
 //@ func NewSolarFromJulianDay(julianDay float64) *Solar [C04 C07]
-//@   requires 1721424.0 <= julianDay+0.5 && julianDay+0.5 <= 5373483.0
+//@   requires 1721058.0 <= julianDay+0.5 && julianDay+0.5 <= 5373483.0
 //@   ensures float64(tsec(result)) - julianDay*86400.0 <= 0.501
 //@   ensures julianDay*86400.0 - float64(tsec(result)) <= 0.501
 //@   ensures inYears(result.year)
+//@   derived implies(julianDay == float64(rfloor(julianDay)), sjdn(result) == rfloor(julianDay) && result.hour == 12 && result.minute == 0 && result.second == 0)
 //@   ghost J int = d @ d#1
 //@   ghost F float64 = f @ f#1
-//@   hint f#1: 0 <= F && F < 1 && 1721424 <= J && J+1 <= 5373484 && F-(julianDay+0.5-float64(J)) <= 1.0/1000000000.0 && (julianDay+0.5-float64(J))-F <= 1.0/1000000000.0
+//@   hint f#1: 0 <= F && F < 1 && 1721058 <= J && J+1 <= 5373484 && F-(julianDay+0.5-float64(J)) <= 1.0/1000000000.0 && (julianDay+0.5-float64(J))-F <= 1.0/1000000000.0
 //@   use ymdOf(J) @ f#1
 //@   use meeusFwd(yOf(J), mOf(J), dOf(J)) @ f#1
 //@   hint d#2: d == ite(J >= 2299161, J + 1 + (divf(ypOf(J), 100) - 4) - divf(divf(ypOf(J), 100) - 4, 4), J)
@@ -140,7 +141,7 @@ package calendar
 
 //@ # date-time -> Julian Day -> date-time is the identity at one-second resolution
 //@ ghost func jdRoundTrip(s *Solar) [C04]
-//@   requires 1 <= s.year && s.year <= 9998
+//@   requires 0 <= s.year && s.year <= 9998
 //@   body
 //@     jd := s.GetJulianDay()
 //@     r := NewSolarFromJulianDay(jd)
